@@ -27,6 +27,9 @@ ASSUMPTIONS = [
 ]
 
 
+STATE_CAP = 800  # per VOGP_AD configuration; a unit that hits it reports exhaustive=false
+
+
 # ---------------------------------------------------------------------------------------------
 # exact tiling oracle
 
@@ -408,8 +411,8 @@ def run_ad(unit, res, replay=None):
         frontier = nxt
         if not frontier:
             break
-        if len(seen) > 4000:
-            res["caps_hit"].append(f"VOGP_AD state cap 4000 reached at layer {layer} for unit {unit[:5]}")
+        if len(seen) > STATE_CAP:
+            res["caps_hit"].append(f"VOGP_AD state cap {STATE_CAP} reached at layer {layer} for unit {unit[:5]}")
             break
     cut = sum(1 for a, _ in frontier.values() if a.S)
     if cut:
@@ -487,8 +490,9 @@ def units(ctx):
             if d == 2 and depth_max == 3 and not ctx.thorough:
                 continue
             for which in ("mono", "front", "wave"):
-                for spec in (cs if (d == 1 or ctx.thorough) else cs[:2]):
-                    for eps in ((0.05, 0.3) if ctx.thorough else (0.1,)):
+                use = cs if d == 1 else (cs[:2] if not ctx.thorough else (cs[:4] if depth_max < 3 else cs[:2]))
+                for spec in use:
+                    for eps in ((0.05, 0.3) if (ctx.thorough and not (d == 2 and depth_max == 3)) else (0.1,)):
                         us.append(("ad", d, depth_max, which, spec, eps, 40 if (ctx.thorough or d == 1) else 14))
     for d in (1, 2, 3):
         us.append(("adreal", d, 2, ctx.seed))
